@@ -80,6 +80,61 @@ theorem lexNorm_joinName (cwd : Path) (targ : Str) {n : Str} (h : PlainName n) :
     rw [hj, lexNorm, ha, comps_append, comps_plain h, lexWalk_append]
     simp [lexNorm, lexWalk, lexStep_plain _ h]
 
+end PdshVerif.Pcp
+
+namespace PdshVerif.Pcp
+
+/-- what the narrow rule (`/` and `..` rejected) gives -/
+structure SafeName (n : Str) : Prop where
+  noslash : cSlash ∉ n
+  nodotdot : n ≠ sDotDot
+
+theorem narrowNameOk_safe {n : Str} (h : narrowNameOk n = true) : SafeName n := by
+  simp only [narrowNameOk, Bool.and_eq_true, Bool.not_eq_true', List.contains_eq_mem,
+    decide_eq_false_iff_not, beq_eq_false_iff_ne] at h
+  exact ⟨h.1, h.2⟩
+
+theorem PlainName.safe {n : Str} (h : PlainName n) : SafeName n := ⟨h.noslash, h.nodotdot⟩
+
+/-- joining a name without `/` that is not `..` appends one component or (empty name, `.`) none -/
+theorem lexNorm_joinName_safe (cwd : Path) (targ : Str) {n : Str} (h : SafeName n) :
+    lexNorm cwd (joinName targ n) = lexNorm cwd targ ++ [n] ∨
+    lexNorm cwd (joinName targ n) = lexNorm cwd targ := by
+  by_cases he : n = []
+  · right
+    subst he
+    cases targ with
+    | nil => rfl
+    | cons c cs =>
+      have hj : joinName (c :: cs) [] = (c :: cs) ++ cSlash :: [] := by simp [joinName]
+      have ha : isAbs ((c :: cs) ++ cSlash :: []) = isAbs (c :: cs) := by simp [isAbs]
+      have hc : comps ([] : Str) = [] := by simp [comps, splitSlash]
+      rw [hj, lexNorm, ha, comps_append, hc, List.append_nil]
+      rfl
+  · by_cases hd : n = sDot
+    · right
+      subst hd
+      have hc : comps sDot = [sDot] := by decide
+      cases targ with
+      | nil =>
+        have hj : joinName [] sDot = sDot := by simp [joinName]
+        have hab : isAbs sDot = false := by decide
+        have hn : lexNorm cwd ([] : Str) = cwd := by simp [lexNorm, isAbs, comps, splitSlash, lexWalk]
+        rw [hj, hn]
+        simp only [lexNorm, hab, hc]
+        simp [lexWalk, lexStep]
+      | cons c cs =>
+        have hj : joinName (c :: cs) sDot = (c :: cs) ++ cSlash :: sDot := by simp [joinName]
+        have ha : isAbs ((c :: cs) ++ cSlash :: sDot) = isAbs (c :: cs) := by simp [isAbs]
+        rw [hj, lexNorm, ha, comps_append, hc, lexWalk_append]
+        simp [lexNorm, lexWalk, lexStep]
+    · left
+      exact lexNorm_joinName cwd targ ⟨he, h.noslash, hd, h.nodotdot⟩
+
+end PdshVerif.Pcp
+
+namespace PdshVerif.Pcp
+
 /-! ## successful system calls act on the lexical normal form -/
 
 theorem resolve_eq {fs : FS} {cwd : Path} {s : Str} {p : Path} (h : resolve fs cwd s = some p) :
